@@ -30,11 +30,13 @@ static void pool_suspend_direct(struct tm *self, size_t i)
   VX_ASSERT(i < self->npools, "an existing pool");
   if (g_susp_total < 3) g_susp_total++; if (i == g_vp && g_susp_victim < 3) g_susp_victim++;
 }
+static long g_resumes;
+static void pool_resume_direct(struct tm *self, size_t i) { if (g_resumes < 3) g_resumes++; }
 //@FUNC
 void thread_manager_suspend(struct tm *self)
-__CPROVER_requires(g_waits == 0 && g_susp_total == 0 && g_susp_victim == 0 && g_vp < self->npools && g_self == NULL)
-__CPROVER_ensures(g_waits == 1 && g_susp_victim == 1)
-__CPROVER_assigns(g_waits, g_susp_total, g_susp_victim, g_self_reads)
+__CPROVER_requires(g_waits == 0 && g_susp_total == 0 && g_susp_victim == 0 && g_resumes == 0 && g_vp < self->npools && g_self == NULL)
+__CPROVER_ensures(g_waits == 1 && g_susp_victim == 1 && g_resumes == 0)
+__CPROVER_assigns(g_waits, g_susp_total, g_susp_victim, g_self_reads, g_resumes)
 //@LIFT suspend
 #else
 //@FUNC
@@ -50,7 +52,7 @@ void harness(void)
 {
 #ifdef U_TM_SUSPEND
   static struct tm tm;
-  vx_exc = 0; g_self = NULL; g_self_reads = 0; g_waits = g_susp_total = g_susp_victim = 0;
+  vx_exc = 0; g_self = NULL; g_self_reads = 0; g_waits = g_susp_total = g_susp_victim = 0; g_resumes = 0;
   tm.npools = nondet_size(); g_vp = nondet_size();
   thread_manager_suspend(&tm);
   if (tm.npools == 1) VX_REACH("one_pool"); if (tm.npools > 1 && g_vp > 0) VX_REACH("several_pools");
